@@ -63,6 +63,20 @@ Theorem C20_conflict_rejected : forall upper syms b,
 Proof. exact conflict_rejected. Qed.
 Print Assumptions C20_conflict_rejected.
 
+(* A symbol that already occurred earlier in the list (same file, line, label, value: the same #Define line
+   reached again because its file is included a second time) changes nothing: neither the binding nor which
+   error is reported.  So a scanner that parses every included file once and one that re-parses repeated
+   includes yield the same binding / the same located error; the correspondence normalises symbol lists
+   with [dedup_syms] (first occurrences kept) on the strength of this theorem. *)
+Theorem C20_repeated_symbol_ignored : forall upper pre s post,
+  In s pre -> analyze upper (pre ++ s :: post) = analyze upper (pre ++ post).
+Proof. exact analyze_repeat. Qed.
+Print Assumptions C20_repeated_symbol_ignored.
+
+Theorem C20_repeated_symbols_ignored : forall upper l, analyze upper (dedup_syms l) = analyze upper l.
+Proof. exact analyze_dedup. Qed.
+Print Assumptions C20_repeated_symbols_ignored.
+
 (* With ASCII case folding the analysis always ends in a binding or a located parse error. *)
 Theorem C20_ascii_total : forall syms, analyze ascii_upper syms <> Crash.
 Proof. exact ascii_no_crash. Qed.
@@ -199,6 +213,12 @@ Proof. vm_compute. reflexivity. Qed.
 Example C20_example_reject_alias :
   analyze ascii_upper (ex_syms ++ [mkSym ex_file 8 [80;65;82;95;122] [80;97;114;95;51]]) = ParseErr ex_file 8.
 Proof. vm_compute. reflexivity. Qed.
+
+(* the whole example program included a second time: same binding, and the normal form is the single copy *)
+Example C20_example_repeat :
+  dedup_syms (ex_syms ++ ex_syms) = ex_syms /\
+  analyze ascii_upper (ex_syms ++ ex_syms) = analyze ascii_upper ex_syms.
+Proof. vm_compute. split; reflexivity. Qed.
 
 Example C20_example_ranges : find_ranges [5; 3; 4; 9; 1; 10; 3] = [(1, 1); (3, 5); (9, 10)].
 Proof. vm_compute. reflexivity. Qed.
